@@ -18,7 +18,7 @@ import re
 from ..model import AnalysisError, norm, walk_no_nested, call_name
 from ..callgraph import Resolver
 from ..effects import Effects
-from ..cfg import subnodes
+from ..cfg import CFG, subnodes
 from ..struct import parent_map
 from .atomic import Flow
 from . import atomic
@@ -48,6 +48,27 @@ def run(ctx):
         extra = re.compile(saved.pattern[:-2] + r'|fromsrc|_code_as_lines)$')
         atomic.VALIDATOR_RE = extra
         c12.VALIDATOR_RE = extra
+        # wrapper summary: a private module-level function of fst_raw whose every normal return passes a parser call (and that does not
+        # touch a tree of its own: no `self`) *is* a parser — the parse-before-mutate prologue extracted into a worker
+        parsers = set(PARSERS)
+        changed = True
+        while changed:
+            changed = False
+            for q0, fis0 in ctx.repo.mod('fst_raw').funcs.items():
+                if '.' in q0 or q0 in parsers:
+                    continue
+                for f0 in fis0:
+                    if isinstance(f0.node, ast.Lambda):
+                        continue
+                    ps0 = [a.arg for a in f0.node.args.posonlyargs + f0.node.args.args]
+                    if ps0[:1] == ['self']:
+                        continue
+                    c0 = CFG(f0.node)
+                    pn = {n.id for n in c0.nodes if any(isinstance(x, ast.Call) and call_name(x) in parsers for x in subnodes(c0, n))}
+                    if pn and c0.exit not in c0.reachable(c0.entry, lambda n, lab, s: lab != 'exc' and n.id not in pn):
+                        parsers.add(q0)
+                        changed = True
+        ctx.extra['parser_wrappers'] = sorted(parsers - set(PARSERS))
         for q in RAW_FUNCS:
             for fi in ctx.repo.funcs('fst_raw', q):
                 flow = Flow(ef, fi, 'self', {})
@@ -55,7 +76,7 @@ def run(ctx):
                 # a local that only ever names a parser: `parse_stmtlike = parse_match_case if is_match_case else parse_ExceptHandler`
                 def names_parser(e):
                     if isinstance(e, ast.Name):
-                        return e.id in PARSERS
+                        return e.id in parsers
                     if isinstance(e, ast.IfExp):
                         return names_parser(e.body) and names_parser(e.orelse)
                     return False
@@ -72,10 +93,10 @@ def run(ctx):
                         return False
                     if isinstance(x.func, ast.Name) and x.func.id in parser_aliases:
                         return True
-                    if call_name(x) in PARSERS:
+                    if call_name(x) in parsers:
                         return True
                     # (parse_match_case if is_match_case else parse_ExceptHandler)(...)
-                    return isinstance(x.func, ast.IfExp) and all(isinstance(b, ast.Name) and b.id in PARSERS for b in (x.func.body, x.func.orelse))
+                    return isinstance(x.func, ast.IfExp) and all(isinstance(b, ast.Name) and b.id in parsers for b in (x.func.body, x.func.orelse))
                 parse_nodes = {n.id for n in cfg.nodes if any(is_parse_call(x) for x in subnodes(cfg, n))}
                 if not parse_nodes:
                     raise AnalysisError(f'{fi.key}: no parser call found (anchor vanished)')
